@@ -234,14 +234,17 @@ static int treeMain(const std::vector<std::string>&, std::istream& in, std::ostr
         auto w = splitWords(line);
         if (w.size() != 3) { out << "bad-case\n"; continue; }
         ParseOptions opts = decodeOptions(w[0]);
-        SyntaxTree::SyntaxCategory cat = w[1] == "d" ? SyntaxTree::SyntaxCategory::Declarations : w[1] == "e" ? SyntaxTree::SyntaxCategory::Expressions
-                                       : w[1] == "s" ? SyntaxTree::SyntaxCategory::Statements : SyntaxTree::SyntaxCategory::Any;
+        SyntaxTree::SyntaxCategory cat = (w[1] == "d" || w[1] == "D") ? SyntaxTree::SyntaxCategory::Declarations : (w[1] == "e" || w[1] == "E") ? SyntaxTree::SyntaxCategory::Expressions
+                                       : (w[1] == "s" || w[1] == "S") ? SyntaxTree::SyntaxCategory::Statements : SyntaxTree::SyntaxCategory::Any;
         std::unique_ptr<SyntaxTree> tree;
         try {
             tree = SyntaxTree::parseText(SourceText(unhex(w[2])), TextPreprocessingState::Preprocessed, TextCompleteness::Fragment, opts, "t.c", cat);
         } catch (const std::exception& ex) { out << "exception " << ex.what() << "\n"; continue; }
         catch (...) { out << "exception ?\n"; continue; }
         if (!tree->rootNode()) { out << tree->tokenCount() << " ; no-root | " << diagIdsOf(tree.get()) << "\n"; continue; }
+        // category letter in upper case: the tree is built and NOT walked (inputs nested so deep that a recursive walk of the tree - this
+        // harness's, not the front end's - would exhaust the stack: the subject is SyntaxTree::parseText alone)
+        if (w[1] == "A" || w[1] == "D" || w[1] == "E" || w[1] == "S") { out << tree->tokenCount() << " ; built " << kindStr(tree->rootNode()->kind()) << " | unwalked | " << diagIdsOf(tree.get()) << "\n"; continue; }
         Counter counter(tree.get());
         counter.visit(tree->rootNode());
         Dumper d;
